@@ -65,6 +65,8 @@ def cases(tier):
             lat = {1: "F9M", 2: "F9M", 3: "F9M", 4: "F9", 5: "F5M"}[n]
             for pi, _ in enumerate(_presets(op, n, tier)):
                 yield ("packed", op, n, lat, pi, tier)
+                if n <= 3:
+                    yield ("packed32", op, n, lat, pi, tier)  # single-precision inputs
         if tier == "thorough" and op != "FuzzyNot":
             for pi, _ in enumerate(_presets(op, 4, tier)):
                 yield ("packed", op, 4, "F9M", pi, tier)
@@ -83,7 +85,7 @@ def cases(tier):
                     yield ("small", op, n, size, first, tier)
 
 
-def _judge(op, params, arrays_cells, res, viols, tag, counters):
+def _judge(op, params, arrays_cells, res, viols, tag, counters, tol=1e-9):
     """compare one execution with the reference"""
     ref = REF.apply(op, arrays_cells, params)
     ncell = len(arrays_cells[0]) if arrays_cells else 0
@@ -103,7 +105,7 @@ def _judge(op, params, arrays_cells, res, viols, tag, counters):
     if res[0] == "err":
         viols.append(V("C06:%s:raised:%s" % (op, D.error_name(res[1])), "%s %r raised %r" % (op, params, res[1]), **tag))
         return "raised"
-    for kind, msg in D.compare(res[1], ref[1], ref[2], (ncell,)):
+    for kind, msg in D.compare(res[1], ref[1], ref[2], (ncell,), tol):
         viols.append(V("C06:%s:%s" % (op, kind), "%s n=%d %r: %s (inputs at that cell: %s)" % (
             op, len(arrays_cells), params, msg, _cell_inputs(arrays_cells, msg)), **tag))
     return "ok"
@@ -118,7 +120,8 @@ def _cell_inputs(arrays_cells, msg):
 
 
 def _packed(case):
-    _, op, n, lat, pi, tier = case
+    kind_, op, n, lat, pi, tier = case
+    dt_ = "float32" if kind_ == "packed32" else "float"
     L = _lattice(lat)
     params = _presets(op, n, tier)[pi]
     tuples = list(itertools.product(L, repeat=n))
@@ -128,10 +131,10 @@ def _packed(case):
     outcomes = {}
     forms = ("nomask", "false") if M not in L else ("auto",)
     for form in forms:
-        arrays = [D.mk_array(c, maskform=form) for c in cols]
+        arrays = [D.mk_array(c, maskform=form, dtype=dt_) for c in cols]
         res = D.execute(op, arrays, params)
-        tag = {"op": op, "n": n, "lattice": lat, "params": params, "maskform": form}
-        oc = _judge(op, params, cols, res, viols, tag, counters)
+        tag = {"op": op, "n": n, "lattice": lat, "params": params, "maskform": form, "dtype": dt_}
+        oc = _judge(op, params, cols, res, viols, tag, counters, tol=1e-6 if dt_ == "float32" else 1e-9)
         outcomes["%s:%s" % (op, oc)] = outcomes.get("%s:%s" % (op, oc), 0) + 1
         if res[0] == "ok" and isinstance(res[1], numpy.ndarray):
             for v in set(numpy.ma.compressed(numpy.ma.asarray(res[1])).round(6).tolist()[:2000]):
@@ -283,7 +286,7 @@ def _small(case):
 
 def run(case):
     case = tuple(case)
-    if case[0] == "packed":
+    if case[0] in ("packed", "packed32"):
         return _packed(case)
     if case[0] == "laws":
         return _laws(case)
